@@ -35,6 +35,15 @@ func (g *gen) nyctFeed(ts uint64) []byte {
 		}
 		m.Entity = append(m.Entity, &gtfsrt.FeedEntity{Id: ptr(fmt.Sprint(i)), TripUpdate: tu})
 	}
+	if g.coin(0.25) && len(m.Entity) > 0 {
+		// the same message with its fields in another order on the wire (entities before the header): protobuf fields may
+		// come in any order, and a file that decodes and parses is a good file whatever its first byte
+		ents, err1 := proto.MarshalOptions{AllowPartial: true}.Marshal(&gtfsrt.FeedMessage{Entity: m.Entity})
+		hdr, err2 := proto.MarshalOptions{AllowPartial: true}.Marshal(&gtfsrt.FeedMessage{Header: m.Header})
+		if err1 == nil && err2 == nil {
+			return append(append([]byte{}, ents...), hdr...)
+		}
+	}
 	return marshal(m)
 }
 
@@ -67,13 +76,14 @@ func engineDirsource(ctx *engineCtx) {
 	if ctx.thorough {
 		n = 1500
 	}
-	ctx.rule = "real temporary directories: 0-12 entries with random names (spaces, non-ASCII, leading dots, mixed case, digits of different length), each a good GTFS-realtime file, " +
+	ctx.rule = "real temporary directories: 0-12 entries with random names (spaces, non-ASCII, bytes that are not valid UTF-8, leading dots, mixed case, digits of different length), each a good GTFS-realtime file (a quarter of them with the entities written before the header), " +
 		"a sub-directory, an empty / truncated / corrupt file, a dangling symlink, or a file deleted between listing and Next; all-bad and empty directories included; " +
 		"non-trivial = at least one good and one bad entry; distinct = distinct (names, kinds) layout"
 	base := filepath.Join(filepath.Dir(ctx.outDir), fmt.Sprintf("dirs-%d", os.Getpid()))
 	os.MkdirAll(base, 0o755)
 	defer os.RemoveAll(base)
-	namePool := []string{"a.pb", "A.pb", "b.pb", "B.pb", "c", "10.pb", "9.pb", "2.pb", "feed 1", "feed_1", ".hidden", "é.pb", "z", "Z", "00", "0", "_", "~x", "feed-0002", "feed-0010", "feed-0001"}
+	namePool := []string{"a.pb", "A.pb", "b.pb", "B.pb", "c", "10.pb", "9.pb", "2.pb", "feed 1", "feed_1", ".hidden", "é.pb", "z", "Z", "00", "0", "_", "~x", "feed-0002", "feed-0010", "feed-0001",
+		"feed-\xe9.pb", "\xff.pb", "feed-\xff\xfe", "\xc3.pb"} // the last four: names that are not valid UTF-8 (legal on Linux)
 	kinds := []string{"good", "good", "good", "dir", "empty", "truncated", "corrupt", "dangling", "vanish"}
 	var cases []string
 	layouts := map[string]bool{}
